@@ -10,7 +10,7 @@ theorem iLoop_nil (rec : Nat → ISt → Out × ISt) (s : Store) (st : ISt) :
 theorem iLoop_cons (rec : Nat → ISt → Out × ISt) (s : Store) (i : Ing) (is : List Ing) (st : ISt) :
     iLoop rec s (i :: is) st =
       match i.target with
-      | none => iLoop rec s is st
+      | none => iLoop rec s is (iSkip st)
       | some v =>
         match s[v]? with
         | some c =>
@@ -73,6 +73,10 @@ theorem IW.ver {s : Store} {st : ISt} (h : IW s st) (i : Ing) (v : Nat) :
     IStep s 1 st (iVer st i v) :=
   ⟨⟨h.vnd, h.vlt⟩, ⟨[], rfl⟩, rfl, by simp only [iVer, iHash]; omega, ⟨[_, _], rfl⟩⟩
 
+theorem IW.skip {s : Store} {st : ISt} (h : IW s st) :
+    IStep s 1 st (iSkip st) :=
+  ⟨⟨h.vnd, h.vlt⟩, ⟨[], rfl⟩, rfl, by simp only [iSkip]; omega, ⟨[], rfl⟩⟩
+
 theorem IW.miss {s : Store} {st : ISt} (h : IW s st) (v : Nat) :
     IStep s 1 st (iMiss st v) :=
   ⟨⟨h.vnd, h.vlt⟩, ⟨[], rfl⟩, rfl, by simp only [iMiss]; omega, ⟨[_], rfl⟩⟩
@@ -99,8 +103,8 @@ theorem iLoop_safe (s : Store) (rec : Nat → ISt → Out × ISt)
     cases ht : i.target with
     | none =>
       simp only
-      obtain ⟨h1, h2⟩ := ih st h
-      exact ⟨h1.mono (by simp), h2⟩
+      obtain ⟨h1, h2⟩ := ih (iSkip st) h.skip.iw
+      exact ⟨(h.skip.trans h1).mono (by simp; omega), h2⟩
     | some v =>
       simp only
       cases hs : s[v]? with
@@ -186,7 +190,7 @@ theorem iLoop_fuel_mono (s : Store) (rec rec' : Nat → ISt → Out × ISt)
     intro st
     rw [iLoop_cons, iLoop_cons]
     cases ht : i.target with
-    | none => exact ih st
+    | none => exact ih (iSkip st)
     | some v =>
       simp only
       cases hs : s[v]? with
@@ -247,7 +251,7 @@ theorem iLoop_fuel_any (s : Store) (rec : Nat → ISt → Out × ISt)
     intro st
     rw [iLoop_cons]
     cases ht : i.target with
-    | none => exact ih st
+    | none => exact ih (iSkip st)
     | some v =>
       simp only
       cases hs : s[v]? with
@@ -297,7 +301,7 @@ theorem iLoop_fuel_unv (s : Store) (m : Nat) (rec : Nat → ISt → Out × ISt)
     intro st h hm
     rw [iLoop_cons]
     cases ht : i.target with
-    | none => exact ih st h hm
+    | none => exact ih (iSkip st) h.skip.iw hm
     | some v =>
       simp only
       cases hs : s[v]? with
